@@ -92,7 +92,7 @@ class Harness(cm.BaseB):
 
     def chunks(self, tier):
         out = [{"k": "sizes", "cls": c} for c in ("Labware", "Trough")]
-        for kind, R, C in (("plate", 2, 3), ("plate", 1, 3), ("plate", 3, 1), ("trough", 2, 3), ("trough", 4, 1), ("plate", 1, 1)):
+        for kind, R, C in (("plate", 2, 3), ("plate", 1, 3), ("plate", 3, 1), ("trough", 2, 3), ("trough", 4, 1), ("plate", 1, 1), ("plate", 2, 2), ("plate", 3, 3), ("trough", 2, 2)):
             out.append({"k": "prod", "kind": kind, "R": R, "C": C})
         out.append({"k": "pairs"})
         return out
@@ -121,7 +121,7 @@ class Harness(cm.BaseB):
         ninit = len(initial_classes(kind, R, C))
         for li in range(len(LIMITS_C)):
             for ii in range(ninit):
-                for ni in range(8):
+                for ni in range(9):
                     yield {"k": "prod", "kind": kind, "R": R, "C": C, "lim": li, "init": ii, "names": ni}
 
     def one(self, case):
@@ -295,6 +295,13 @@ class Harness(cm.BaseB):
                 # an empty string (a blank spreadsheet cell) is a name too
                 names = {well_id(*sorted(empty)[-1]): ""} if empty else None
                 names_ok = not empty
+            elif ni == 8:
+                # keys that look like a well of the labware but are not its canonical ID (A1, A001, full-width digit)
+                r0, c0 = sorted(filled)[0] if filled else (0, 0)
+                names = {f"{chr(65 + r0)}{c0 + 1}": "short"} if (r0 + c0) % 2 == 0 else {f"{chr(65 + r0)}{c0 + 1:03d}": "long"}
+                if (r0 + c0) % 3 == 0:
+                    names = {f"{chr(65 + r0)}\uff10{c0 + 1}": "full-width zero"}
+                names_ok = False
             elif ni == 7:
                 # a key that differs from a well ID by white space names no well of the labware
                 some = sorted(filled)[:1]
@@ -326,7 +333,7 @@ class Harness(cm.BaseB):
             elif ni == 6:
                 names = ["" if not cols_filled[c] else None for c in range(C)]
                 names_ok = all(cols_filled)
-            elif ni == 7:
+            elif ni in (7, 8):
                 names = None  # (column names are positional: no keys)
             else:
                 names = [None] * (C - 1) if C > 1 else [None, None]
